@@ -173,7 +173,7 @@ PASS_CALLS = ("::iter", "::deref", "::as_ref", "::as_mut", "::into_iter", "::enu
               "::deref_mut", "::iter_mut", "::rev", "::skip", "::take", "::peekable", "::by_ref", "::as_deref", "::unwrap", "::expect", "::copied", "::cloned")
 
 
-def origins(body, op, depth=14):
+def origins(body, op, depth=40):
     """{(slot local, strict)}: parameters of `body` the operand's value is (a sub-part of); None if unknown"""
     from vlib.mir import op_place, op_const
 
